@@ -135,6 +135,11 @@ def cases(thorough):
     # two files sharing one text; a new file whose text equals another file's old text
     out.append(([('a.ml', 't'), ('b.ml', 't')], [('a.ml', 't'), ('b.ml', 'u')]))
     out.append(([('a.ml', 't')], [('a.ml', 'u'), ('b.ml', 't')]))
+    # present files whose text is EMPTY (falsy): emptied, filled, unchanged-empty, next to an ordinary change
+    out.append(([('a.ml', '')], [('a.ml', '')]))
+    out.append(([('a.ml', '')], [('a.ml', 'v2')]))
+    out.append(([('a.ml', 'v1')], [('a.ml', '')]))
+    out.append(([('a.ml', 'v1'), ('b.ml', '')], [('a.ml', ''), ('b.ml', 'w')]))
     seen, res = set(), []
     for y, t in out:
         key = (tuple(y), tuple(t))
